@@ -154,6 +154,35 @@ func init() {
 				os.RemoveAll(base)
 				continue
 			}
+			if r.Intn(5) == 0 {
+				// ---- load HISTORY: the file outside the root was read legitimately — by the sibling kustomization it belongs to —
+				// earlier (or later) in the same build; the reference to it from `root` is an escape all the same, whatever any
+				// layer of the build has already seen
+				evil := filepath.Join(base, "root-evil")
+				hp := pickS(r, []string{"../root-evil/ref.yaml", filepath.Join(evil, "ref.yaml"), "sub/../../root-evil/ref.yaml", "../root-evil/./ref.yaml"})
+				fs.WriteFile(filepath.Join(evil, "inside.yaml"), []byte(inside))
+				fs.WriteFile(filepath.Join(evil, "kustomization.yaml"), []byte(f.kust("ref.yaml")+"namePrefix: evil-\n"))
+				fs.WriteFile(filepath.Join(root, "kustomization.yaml"), []byte(f.kust(hp)))
+				fs.MkdirAll(filepath.Join(base, "wrap"))
+				order := []string{"../root-evil", "../root"}
+				if r.Intn(4) == 0 {
+					order[0], order[1] = order[1], order[0]
+				}
+				fs.WriteFile(filepath.Join(base, "wrap", "kustomization.yaml"), []byte("resources:\n- "+order[0]+"\n- "+order[1]+"\n"))
+				opt := func(op *krusty.Options) { op.PluginConfig.BpLoadingOptions = 1 }
+				_, herr, hpnc := safeBuild(func() (string, error) { return runBuild(fs, filepath.Join(base, "wrap"), opt) })
+				// control: the sibling alone builds (otherwise the scenario says nothing for this field)
+				_, cerr, _ := safeBuild(func() (string, error) { return runBuild(fs, evil, opt) })
+				in := map[string]interface{}{"field": f.name, "path": hp, "fs": map[bool]string{true: "disk", false: "mem"}[onDisk], "scenario": "file-loaded-by-sibling-first", "order": order}
+				o.note(fmt.Sprintf("history-%s-sibling-ok=%v-build-ok=%v", f.name, cerr == nil, herr == nil && hpnc == nil), in)
+				if hpnc == nil && herr == nil {
+					o.fail("escaping-reference-accepted:"+f.name, fmt.Sprintf("field %s with path %q names a file of the sibling kustomization %s outside root %s and the build succeeds (the sibling had loaded it)", f.name, hp, evil, root), cs, in, nil, nil)
+				}
+				if onDisk {
+					os.RemoveAll(base)
+				}
+				continue
+			}
 			fs.WriteFile(filepath.Join(root, "kustomization.yaml"), []byte(f.kust(p)))
 			out, err, pnc := safeBuild(func() (string, error) {
 				return runBuild(fs, root, func(op *krusty.Options) { op.PluginConfig.BpLoadingOptions = 1 })
